@@ -80,6 +80,37 @@ func New(jobConfigs []*execution.JobConfig, options ...Option) (*Schedule, error
 	return sched, nil
 }
 
+// Add will add the JobConfig to the internal heap if it is not yet in it, using
+// the same initial time for scheduling as New does. This allows a JobConfig that
+// is discovered after the Schedule was created to be scheduled as well, without
+// disturbing a JobConfig that the Schedule already knows about. Returns true if
+// the JobConfig was added.
+func (s *Schedule) Add(jobConfig *execution.JobConfig) (bool, error) {
+	name, err := cache.MetaNamespaceKeyFunc(jobConfig)
+	if err != nil {
+		return false, errors.Wrapf(err, "cannot get namespaced name for jobconfig %v", jobConfig)
+	}
+	if _, ok := s.jobConfigs.Search(name); ok {
+		return false, nil
+	}
+
+	cronCfg, err := s.cfg.Cron()
+	if err != nil {
+		return false, errors.Wrapf(err, "cannot load cron config")
+	}
+
+	item, err := s.newItem(jobConfig, cronCfg, cron.NewParserFromConfig(cronCfg), s.clock.Now())
+	if err != nil {
+		return false, err
+	}
+	if item == nil {
+		return false, nil
+	}
+
+	s.jobConfigs.Push(item.Name(), item.Priority())
+	return true, nil
+}
+
 // Pop returns the namespaced name and time of the next item to be scheduled
 // that is not after popTime. The returned JobConfig, if any, will be removed
 // from the heap.
